@@ -10,7 +10,7 @@ from fractions import Fraction
 
 import z3
 
-from .values import (AList, ADict, ASet, CDict, CList, CVal, I, R, B, Mat, Obj, Opaque, RangeV, Ref, Unsupported,
+from .values import (AList, ADict, ASet, CDict, CList, CVal, GList, I, R, B, Mat, Obj, Opaque, RangeV, Ref, Unsupported,
                      fresh, is_bool, is_int, is_real, is_z3, lift, numeric_join, sort_of, to_c, to_int, to_real)
 
 NOT_HANDLED = object()
@@ -39,6 +39,8 @@ def spec_call(ex, name, e, env):
         a = ex.truth(ex.ev(e.args[0], env))
         if z3.is_false(z3.simplify(a)):
             return z3.BoolVal(True)
+        if not ex.feasible(a):
+            return z3.BoolVal(True)     # antecedent excluded by the path condition: the consequent is not evaluated (it may not even be well defined)
         saved = len(ex.pc)
         ex.pc.append(a)
         try:
@@ -106,6 +108,11 @@ def spec_call(ex, name, e, env):
         return to_c(lift(ex.ev(e.args[0], env))).im
     if name == "cplx":
         return CVal(to_real(lift(ex.ev(e.args[0], env))), to_real(lift(ex.ev(e.args[1], env))))
+    if name == "suffix":
+        h = ex.deref(ex.ev(e.args[0], env))
+        if not isinstance(h, GList):
+            raise Unsupported("suffix() of a non-growing list")
+        return ex.alloc(CList(h.suffix))
     if name == "fresh_ref":
         v = ex.ev(e.args[0], env)
         return z3.BoolVal(isinstance(v, Ref) and ex.prov.get(v.id) == "FRESH")
@@ -170,6 +177,8 @@ def builtin_call(ex, name, e, env):
             return h.len
         if isinstance(h, CList):
             return z3.IntVal(len(h.items))
+        if isinstance(h, GList):
+            return h.prefix + len(h.suffix)
         if isinstance(h, ADict):
             return h.n
         if isinstance(h, CDict):
@@ -613,6 +622,13 @@ def trig(ex, which, x):
 
 # --------------------------------------------------------------------------- container methods
 def container_method(ex, base, h, attr, args, kwargs, node):
+    if isinstance(h, GList):
+        if attr == "append":
+            ex.store(base, GList(h.prefix, h.suffix + (args[0],)), node, "append")
+            return None
+        if attr == "copy":
+            return ex.alloc(h)
+        raise Unsupported(f"{attr} on a growing list")
     if isinstance(h, (AList, CList)):
         return list_method(ex, base, h, attr, args, kwargs, node)
     if isinstance(h, (ADict, CDict)):
